@@ -3,9 +3,9 @@ import itertools
 
 from hypothesis import strategies as st
 
-from ..runner import Violation, unexpected, digest
+from ..runner import Violation, unexpected, digest, guarded
 from ..ref import b58 as R, hashes as H
-from .. import libx
+from .. import libx, gen
 
 import bitcoin.base58 as B
 
@@ -143,7 +143,7 @@ def t_exhaustive(ctx):
     for a in ctx.my(range(256)):
         for b in [bytes([a])] + [bytes([a, c]) for c in range(256)] + ([b''] if a == 0 else []):
             try:
-                nt += bool(check_bytes(b)['nt'])
+                nt += bool(guarded(check_bytes, b)['nt'])
                 n += 1
             except Violation as v:
                 ctx.evals += 1
@@ -154,8 +154,8 @@ def t_exhaustive(ctx):
         for t in ctx.my(itertools.product(ALPHA, repeat=L)):
             s = ''.join(t)
             try:
-                nt += bool(check_string(s)['nt'])
-                check_b58check_string(s)
+                nt += bool(guarded(check_string, s)['nt'])
+                guarded(check_b58check_string, s)
                 n += 1
             except Violation as v:
                 ctx.evals += 1
@@ -188,6 +188,17 @@ def t_exhaustive(ctx):
                 ctx.run({'kind': 'string', 's': base[:pos] + ch + base[pos:]})
                 ctx.run({'kind': 'anycheck', 's': base[:pos] + ch + base[pos + 1:]})
         ctx.exhaustive.append('every non-alphabet ASCII code point at 5 position classes')
+        # look-alikes of every alphabet character (same low byte / 7 bits, full-width, other scripts' digits): never digits
+        n_conf = 0
+        for c in ALPHA:
+            for x in gen.confusables(c):
+                for pos in (0, len(base) // 2, len(base) - 1):
+                    ctx.run({'kind': 'string', 's': base[:pos] + x + base[pos + 1:]})
+                    ctx.run({'kind': 'anycheck', 's': base[:pos] + x + base[pos + 1:]})
+                ctx.run({'kind': 'string', 's': x})
+                ctx.run({'kind': 'string', 's': x + c})
+                n_conf += 1
+        ctx.exhaustive.append('%d look-alike code points of the 58 alphabet characters at 3 positions and alone' % n_conf)
 
 
 def t_versions(ctx):
